@@ -44,6 +44,10 @@ def gen_conv(rng, ver, tier):
         spec["dialog_action"] = bool(mode == "dialog" and rng.random() < 0.5)
     else:
         spec = {"ver": "v2", "k": k, "m": m, "mode": "v2", "exc": False}
+        if rng.random() < 0.5:
+            # rails whose action answers "is it bad?" instead of "is it allowed?"
+            spec["pol_in"] = [rng.choice(["ok", "blocked"]) for _ in range(k)]
+            spec["pol_out"] = [rng.choice(["ok", "blocked"]) for _ in range(m)]
     if rng.random() < 0.4:
         # the actions that fail also declare a parameter the runtime injects by name (llm, config, events, state, ...)
         spec["sig"] = rng.choice(rc.rails.SIGNATURES)
@@ -100,6 +104,10 @@ def cases(tier, seed):
 
 def run_case(case):
     r = run_case_for(TAG, case, reuse=12)
+    fr = r.get("fault_rail")
+    if fr and case["spec"].get("ver") == "v2" and fr[0] in ("in", "out") and fr[1] is not None:
+        pol = case["spec"].get("pol_in" if fr[0] == "in" else "pol_out") or []
+        r["fault_on_blocked_polarity_rail"] = pol[fr[1] : fr[1] + 1] == ["blocked"]
     per_turn = case.get("per_turn")
     nt = False
     if case.get("fault") and per_turn:
@@ -118,6 +126,9 @@ def run_case(case):
 
 def classify(r):
     w = r.get("what")
+    if r.get("ver") == "v2" and r.get("fault_on_blocked_polarity_rail") and w in ("unchecked-llm-text-returned-after-in-rail-fault", "unchecked-llm-text-returned-after-out-rail-fault", "llm-called-after-input-rail-fault"):
+        # structural: the call that failed belongs to a rail whose action answers "is it bad?"
+        return "v2-failed-action-reads-as-not-bad"
     if r.get("ver") == "v1" and r.get("after_fault") and w in ("input-rail-calls-differ", "reply-is-not-the-rejecting-rails-refusal", "original-text-in-prompt-after-rewrite", "output-rail-calls-differ", "reply-differs-from-model", "llm-called-after-input-rejection", "no-generation-for-accepted-message"):
         return "stale-context-after-hidden-turn"
     return "%s:%s" % (r.get("ver"), w)
